@@ -121,10 +121,11 @@ def minimise(engine, prop, plan, choices, violation, budget_s=120):
 		reduced = False
 		i = 0
 		while i < len(ops) and time.time() - t0 < budget_s:
-			cand_ops = ops[:i] + ops[i + chunk:]
-			cand = dict(best[0])
-			cand["ops"] = cand_ops
-			cand = engine.normalise(cand) if hasattr(engine, "normalise") else cand
+			if hasattr(engine, "drop_ops"):
+				cand = engine.drop_ops(best[0], i, i + chunk)
+			else:
+				cand = dict(best[0])
+				cand["ops"] = ops[:i] + ops[i + chunk:]
 			got = fails(cand, best[1])
 			if got:
 				ops = list(cand["ops"])
